@@ -59,7 +59,7 @@ Proof.
     destruct (pw_sent st + N.min acc (lenN rest) =? lenN (pw_buf st)) eqn:Hf; intros E; injection E as <- <-.
     + apply N.eqb_eq in Hf. split; [split; cbn; [change (lenN (@nil byte)) with 0; lia|reflexivity]|].
       cbn [pw_sent pw_buf]. unfold dropN at 1. cbn. rewrite app_nil_r. apply takeN_all. lia.
-    + apply N.eqb_neq in Hf. cbn [pw_sent pw_buf]. split.
+    + apply N.eqb_neq in Hf. unfold pw_ok. cbn [pw_sent pw_buf]. split.
       * split; [lia|]. intros E. rewrite E in Hb. change (lenN (@nil byte)) with 0 in Hb. lia.
       * unfold rest. rewrite <- dropN_dropN. apply takeN_dropN.
   - intros E. injection E as <- <-. split; [split; assumption|reflexivity].
